@@ -42,8 +42,26 @@ class MyDict(dict):
     pass
 
 
+class LenAnyNode(AnyNode):
+    """Container-like node class: falsy while it has no children."""
+
+    def __len__(self):
+        return len(self.children)
+
+
+class EqAnyNode(AnyNode):
+    def __eq__(self, other):
+        return isinstance(other, EqAnyNode)
+
+    def __hash__(self):
+        return 3
+
+    def __bool__(self):
+        return False
+
+
 DICTCLS = {"dict": dict, "OrderedDict": collections.OrderedDict, "MyDict": MyDict}
-NODECLS = {"AnyNode": AnyNode, "Node": Node, "AttrNM": AttrNM}
+NODECLS = {"AnyNode": AnyNode, "Node": Node, "AttrNM": AttrNM, "LenAnyNode": LenAnyNode, "EqAnyNode": EqAnyNode}
 
 
 def attriter_of(name):
@@ -53,6 +71,8 @@ def attriter_of(name):
         return lambda items: sorted(items, key=lambda kv: kv[0])
     if name == "keyfilter":
         return lambda items: [(k, v) for k, v in items if not k.startswith("_")]
+    if name == "genfilter":  # an attriter may hand back a generator
+        return lambda items: ((k, v) for k, v in items if k != "b")
     raise ValueError(name)
 
 
@@ -279,7 +299,7 @@ def dict_spec(draw, cls, depth=0):
 
 @st.composite
 def random_cases(draw):
-    cls = draw(st.sampled_from(["AnyNode", "AnyNode", "Node", "AttrNM"]))
+    cls = draw(st.sampled_from(["AnyNode", "AnyNode", "Node", "AttrNM", "LenAnyNode", "EqAnyNode"]))
     if draw(st.integers(0, 4)) == 0:
         return {"kind": "dict", "cls": cls, "data": draw(dict_spec(cls))}
     shape = draw(strategies.tree_shapes(max_nodes=25))
@@ -290,7 +310,7 @@ def random_cases(draw):
         "shape": shape,
         "attrs": [draw(attr_list(cls)) for _ in range(size)],
         "start": draw(st.one_of(st.just(0), st.integers(0, size - 1))),
-        "attriter": draw(st.sampled_from([None, "sorted", "keyfilter"])),
+        "attriter": draw(st.sampled_from([None, "sorted", "keyfilter", "genfilter"])),
         "childiter": draw(st.sampled_from(["list", "reversed", "filter"])),
         "dictcls": draw(st.sampled_from(["dict", "OrderedDict", "MyDict"])),
         "maxlevel": draw(st.one_of(st.none(), st.integers(0, 6))),
@@ -312,7 +332,7 @@ def _enum_cases(max_nodes, index, count):
                 for attriter in (None, "sorted", "keyfilter"):
                     for childiter in ("list", "reversed", "filter"):
                         for dictcls in ("dict", "OrderedDict", "MyDict"):
-                            yield {"kind": "tree", "cls": ["AnyNode", "Node", "AttrNM"][k % 3], "shape": forest.to_list(shape), "attrs": [pattern[(i + k) % 3] for i in range(size)], "start": start, "attriter": attriter, "childiter": childiter, "dictcls": dictcls, "maxlevel": maxlevel}
+                            yield {"kind": "tree", "cls": ["AnyNode", "Node", "AttrNM", "LenAnyNode", "EqAnyNode"][k % 5], "shape": forest.to_list(shape), "attrs": [pattern[(i + k) % 3] for i in range(size)], "start": start, "attriter": attriter, "childiter": childiter, "dictcls": dictcls, "maxlevel": maxlevel}
 
 
 def plan(tier, seed):
